@@ -1,7 +1,8 @@
-// Child module of crate::ebr_impl::internal.  L3 contracts (C13 C14 C15 C16) and the EBR cut-off
-// stubs used by the L1/L2 harnesses.
-#![allow(dead_code, unused_imports, static_mut_refs, unused_variables)]
+// Child module of crate::ebr_impl::internal.  L3 contracts (C13 C14 C15 C16) on hand-built
+// `Local`s and a real `Collector::new()`, plus the EBR cut-off stubs used by the L1/L2 harnesses.
+#![allow(dead_code, unused_imports, static_mut_refs, unused_variables, unused_mut)]
 use super::*;
+use core::sync::atomic::AtomicUsize;
 
 /// Every guard in the L1/L2 harnesses has a null `local`, so `Guard::drop` never reaches
 /// `Local::unpin`; CBMC cannot always see that statically and would otherwise drag the whole EBR
@@ -10,3 +11,697 @@ use super::*;
 pub(crate) fn s_unpin_unreachable(_l: &Local) {
     assert!(false, "unreachable.unpin_with_null_local_guard (L1/L2 harness guards have a null local)");
 }
+
+// ------------------------------------------------------------------------------------------------
+// is_expired (in-place contract, group "expired")
+// ------------------------------------------------------------------------------------------------
+pub(crate) fn post_is_expired(b: &SealedBag, g: Epoch, r: bool) -> bool {
+    // at least 3 single steps of the clock since sealing (ring distance of the 63-bit values)
+    r == (crate::ebr_impl::epoch::verif_epoch::ring_dist(crate::ebr_impl::epoch::verif_epoch::val(g), crate::ebr_impl::epoch::verif_epoch::val(b.epoch)) >= 3)
+}
+#[kani::proof_for_contract(SealedBag::is_expired)]
+fn c13_is_expired() {
+    let b = SealedBag { epoch: kani::any(), _bag: Bag(Vec::new()) };
+    let _ = b.is_expired(kani::any());
+    core::mem::forget(b);
+}
+#[kani::proof]
+fn c13_is_expired_x() {
+    let b = SealedBag { epoch: kani::any(), _bag: Bag(Vec::new()) };
+    let g: Epoch = kani::any();
+    assert!(post_is_expired(&b, g, b.is_expired(g)), "C13.is_expired.post");
+    core::mem::forget(b);
+}
+
+// ------------------------------------------------------------------------------------------------
+// Instrumented usize atomics (Kani stubs for std::sync::atomic::Atomic::<usize>::*): environment on
+// the GLOBAL epoch word, and a log of my accesses to the global and to my local epoch word.
+// ------------------------------------------------------------------------------------------------
+static mut GWORD: usize = 0;       // address of the global epoch word
+static mut LWORD: usize = 0;       // address of MY local epoch word
+static mut G_BUDGET: u32 = 0;
+static mut G_MODE: u8 = 0;         // 0: no interference; 1: clock may advance freely (I am not pinned); 2: I am pinned at PIN_VAL: clock in {e, e+1}
+static mut PIN_VAL: usize = 0;     // epoch data (unpinned) I am validated in, for mode 2
+static mut SEQ: u32 = 0;
+static mut G_LOADS: u32 = 0;
+static mut G_LAST_LOAD_SEQ: u32 = 0;
+static mut G_LAST_LOAD_VAL: usize = 0;
+static mut G_STORES: u32 = 0;
+static mut G_STORE_VAL: usize = 0;
+static mut G_BEFORE_STORE: usize = 0;
+static mut L_WRITES: u32 = 0;
+static mut L_LAST_WRITE_SEQ: u32 = 0;
+static mut L_LAST_WRITE_VAL: usize = 0;
+static mut L_UNPIN_WRITES: u32 = 0;  // writes of the unpinned starting epoch to my local word
+static mut L_PIN_WRITES: u32 = 0;    // writes of a pinned epoch to my local word
+
+fn budget() -> u32 { match option_env!("VERIF_BUDGET") { Some("3") => 3, Some("1") => 1, _ => 2 } }
+fn ucell(a: &AtomicUsize) -> *mut usize { a as *const AtomicUsize as *mut usize }
+unsafe fn env_g(a: &AtomicUsize) {
+    SEQ += 1;
+    // the environment acts on the global clock whichever word I am about to touch
+    if GWORD == 0 || G_BUDGET == 0 || G_MODE == 0 || !kani::any::<bool>() { return; }
+    G_BUDGET -= 1;
+    let g = GWORD as *mut usize;
+    if G_MODE == 1 {
+        let k: usize = kani::any();
+        kani::assume(k >= 1 && k <= 3);
+        *g = (*g).wrapping_add(2 * k);                       // k single steps of the clock
+    } else if *g == PIN_VAL {
+        *g = (*g).wrapping_add(2);                           // at most one step while I stay pinned
+    }
+}
+fn log_access(a: &AtomicUsize, old: usize, new: Option<usize>) {
+    unsafe {
+        let addr = ucell(a) as usize;
+        if addr == GWORD {
+            match new {
+                None => { G_LOADS += 1; G_LAST_LOAD_SEQ = SEQ; G_LAST_LOAD_VAL = old; }
+                Some(v) => { G_STORES += 1; G_STORE_VAL = v; G_BEFORE_STORE = old; }
+            }
+        }
+        if addr == LWORD {
+            if let Some(v) = new {
+                L_WRITES += 1; L_LAST_WRITE_SEQ = SEQ; L_LAST_WRITE_VAL = v;
+                if v & 1 == 1 { L_PIN_WRITES += 1; } else { L_UNPIN_WRITES += 1; }
+            }
+        }
+    }
+}
+pub(crate) fn u_load(a: &AtomicUsize, _o: Ordering) -> usize { unsafe { env_g(a); let v = *ucell(a); log_access(a, v, None); v } }
+pub(crate) fn u_store(a: &AtomicUsize, v: usize, _o: Ordering) { unsafe { env_g(a); let old = *ucell(a); log_access(a, old, Some(v)); *ucell(a) = v; } }
+pub(crate) fn u_cas(a: &AtomicUsize, cur: usize, new: usize, _s: Ordering, _f: Ordering) -> Result<usize, usize> {
+    unsafe { env_g(a); let old = *ucell(a); if old == cur { log_access(a, old, Some(new)); *ucell(a) = new; Ok(old) } else { log_access(a, old, None); Err(old) } }
+}
+pub(crate) fn u_fetch_or(a: &AtomicUsize, v: usize, _o: Ordering) -> usize { unsafe { env_g(a); let old = *ucell(a); *ucell(a) = old | v; old } }
+
+// ------------------------------------------------------------------------------------------------
+// Hand-built participants
+// ------------------------------------------------------------------------------------------------
+/// Harness objects are leaked: their destructors (queue / list / bag teardown, and through
+/// `Deferred`'s function pointer every closure type of the crate) are not part of any contract here.
+pub(crate) fn leak<T>(t: T) -> &'static T { Box::leak(Box::new(t)) }
+pub(crate) fn mk_local(c: &Collector, bag_cap: usize) -> Local {
+    Local {
+        entry: Entry::default(),
+        collector: UnsafeCell::new(ManuallyDrop::new(c.clone())),
+        bag: UnsafeCell::new(Bag(Vec::with_capacity(bag_cap))),
+        guard_count: Cell::new(0),
+        handle_count: Cell::new(1),
+        advance_count: Cell::new(0),
+        prev_epoch: Cell::new(Epoch::starting()),
+        pin_count: Cell::new(0),
+        manual_count: Cell::new(0),
+        must_collect: Cell::new(false),
+        collecting: Cell::new(false),
+        epoch: CachePadded::new(AtomicEpoch::new(Epoch::starting())),
+    }
+}
+fn epoch_word(e: &AtomicEpoch) -> usize { e as *const AtomicEpoch as usize }   // AtomicEpoch is a newtype around AtomicUsize
+unsafe fn raw_epoch(e: &AtomicEpoch) -> usize { *(e as *const AtomicEpoch as *const usize) }
+unsafe fn set_raw_epoch(e: &AtomicEpoch, v: usize) { *(e as *const AtomicEpoch as *mut usize) = v; }
+
+/// InvL: the data-structure invariant of a participant (C16): pinned bit <=> some live guard.
+unsafe fn inv_l(l: &Local) -> bool { (l.guard_count.get() > 0) == (raw_epoch(&l.epoch) & 1 == 1) && (l.guard_count.get() > 0 || raw_epoch(&l.epoch) == 0) }
+
+/// A participant in an arbitrary InvL state, pinned (if so) at the current global epoch or one behind.
+unsafe fn any_local_state(l: &Local, c: &Collector) {
+    let gc: usize = kani::any();
+    kani::assume(gc < usize::MAX - 4);
+    l.guard_count.set(gc);
+    let hc: usize = kani::any();
+    kani::assume(hc >= 1 && hc < usize::MAX - 4);
+    l.handle_count.set(hc);
+    let g: usize = kani::any();
+    kani::assume(g & 1 == 0 && g >= 2);
+    set_raw_epoch(&c.global.epoch, g);
+    if gc > 0 { set_raw_epoch(&l.epoch, (if kani::any() { g } else { g.wrapping_sub(2) }) | 1); }
+    l.advance_count.set(kani::any());
+    l.collecting.set(false);
+    l.must_collect.set(false);
+}
+
+static mut DESTROYS: u32 = 0;
+/// Contract of Guard::defer_destroy (A-EBR): the object is destroyed later, exactly once.
+unsafe fn k_defer_destroy<T>(_g: &Guard, _ptr: RawShared<T>) { DESTROYS += 1; }
+static mut COLLECTS: u32 = 0;
+static mut COLLECT_PINNED: bool = false;
+static mut COLLECT_GUARD_LOCAL: usize = 0;
+static mut FINALIZES: u32 = 0;
+static mut ADVANCES: u32 = 0;
+/// Contract of Global::collect as seen by unpin: it may run deferred functions (which never touch
+/// this participant's counters) and is entered with the participant still pinned.
+fn k_collect(_g: &Global, guard: &Guard) {
+    unsafe {
+        COLLECTS += 1;
+        COLLECT_GUARD_LOCAL = guard.local as usize;
+        COLLECT_PINNED = !guard.local.is_null() && raw_epoch(&(*guard.local).epoch) & 1 == 1;
+    }
+}
+fn k_finalize(_l: &Local) { unsafe { FINALIZES += 1; } }
+fn k_try_advance(g: &Global, _guard: &Guard) -> Epoch { unsafe { ADVANCES += 1; crate::ebr_impl::epoch::verif_epoch::mk(raw_epoch(&g.epoch)) } }
+
+macro_rules! l3_harness {
+    ($(#[$m:meta])* fn $name:ident() $body:block) => {
+        #[kani::proof]
+        #[kani::stub(std::sync::atomic::Atomic::<usize>::load, u_load)]
+        #[kani::stub(std::sync::atomic::Atomic::<usize>::store, u_store)]
+        #[kani::stub(std::sync::atomic::Atomic::<usize>::compare_exchange, u_cas)]
+        #[kani::stub(std::sync::atomic::Atomic::<usize>::fetch_or, u_fetch_or)]
+        #[kani::stub(Guard::defer_destroy, k_defer_destroy)]   // cuts the Deferred fn-pointer recursion: destroy(Local) -> Bag::drop -> call -> destroy(Local) ...
+        $(#[$m])*
+        fn $name() { #[allow(unused_unsafe)] unsafe { $body } }
+    };
+}
+
+// ================================================================================================
+// C16 / C13 / C14 — pin, unpin, repin, reactivate from an arbitrary InvL state
+// ================================================================================================
+l3_harness! {
+/// pin: +1 guard; the outermost pin publishes pinned(e) and returns only after a load of the global
+/// epoch, made AFTER the publication, returned that same e (however the clock moves meanwhile);
+/// nested pins leave the announced epoch alone.  Another participant is untouched.
+#[kani::stub(Global::collect, k_collect)]
+#[kani::unwind(6)]
+fn c16_pin() {
+    let c: &'static Collector = leak(Collector::new());
+    let l_store = ManuallyDrop::new(mk_local(c, 2));
+    let l: &Local = &l_store;
+    let other_store = ManuallyDrop::new(mk_local(c, 2));
+    let other: &Local = &other_store;
+    any_local_state(l, c);
+    any_local_state(other, c);
+    let (o_gc, o_ep) = (other.guard_count.get(), raw_epoch(&other.epoch));
+    let (gc, hc, ep) = (l.guard_count.get(), l.handle_count.get(), raw_epoch(&l.epoch));
+    kani::assume(inv_l(l));
+    GWORD = epoch_word(&c.global.epoch); LWORD = epoch_word(&l.epoch);
+    G_MODE = if gc == 0 { 1 } else { 2 }; PIN_VAL = ep & !1; G_BUDGET = budget();
+    let g = l.pin();
+    assert!(g.local == l as *const Local, "C16.pin.guard_belongs_to_participant");
+    assert!(l.guard_count.get() == gc + 1 && l.handle_count.get() == hc, "C16.pin.counts_one_more_guard");
+    assert!(inv_l(l) && raw_epoch(&l.epoch) & 1 == 1, "C16.pin.pinned_afterwards");
+    if gc == 0 {
+        assert!(L_PIN_WRITES >= 1 && raw_epoch(&l.epoch) == L_LAST_WRITE_VAL, "C13.pin.publishes_pinned_epoch");
+        assert!(G_LAST_LOAD_SEQ > L_LAST_WRITE_SEQ && (G_LAST_LOAD_VAL >> 1) == (L_LAST_WRITE_VAL >> 1),
+                "C13.pin.validated_against_global_epoch_after_publication");
+        assert!(raw_epoch(&c.global.epoch) == G_LAST_LOAD_VAL, "C14.pin.announced_epoch_is_current_at_return");
+    } else {
+        assert!(raw_epoch(&l.epoch) == ep && L_WRITES == 0, "C16.pin.nested_keeps_announced_epoch");
+    }
+    assert!(other.guard_count.get() == o_gc && raw_epoch(&other.epoch) == o_ep, "C16.pin.other_participant_untouched");
+    assert!(COLLECTS == 0 && G_STORES == 0, "C14.pin.never_moves_the_clock");
+    kani::cover!(gc == 0 && L_PIN_WRITES >= 2, "cover.pin.retry_after_clock_moved");
+    kani::cover!(gc > 3, "cover.pin.nested");
+    core::mem::forget(g);
+}}
+
+l3_harness! {
+/// unpin: -1 guard; the pinned bit is cleared exactly when the last guard goes; a scheduled
+/// collection runs (still pinned) only from the outermost unpin; finalize only for a handle-less
+/// participant; another participant is untouched.
+#[kani::stub(Global::collect, k_collect)]
+#[kani::stub(Local::finalize, k_finalize)]
+#[kani::unwind(6)]
+fn c16_unpin() {
+    let c: &'static Collector = leak(Collector::new());
+    let l_store = ManuallyDrop::new(mk_local(c, 2));
+    let l: &Local = &l_store;
+    let other_store = ManuallyDrop::new(mk_local(c, 2));
+    let other: &Local = &other_store;
+    any_local_state(l, c);
+    any_local_state(other, c);
+    let (o_gc, o_ep) = (other.guard_count.get(), raw_epoch(&other.epoch));
+    kani::assume(l.guard_count.get() >= 1 && inv_l(l));
+    let hc: usize = kani::any(); kani::assume(hc < 10); l.handle_count.set(hc);
+    l.must_collect.set(kani::any()); l.collecting.set(kani::any());
+    let (gc, must, collecting, ep) = (l.guard_count.get(), l.must_collect.get(), l.collecting.get(), raw_epoch(&l.epoch));
+    GWORD = epoch_word(&c.global.epoch); LWORD = epoch_word(&l.epoch);
+    G_MODE = 2; PIN_VAL = ep & !1; G_BUDGET = budget();
+    l.unpin();
+    assert!(l.guard_count.get() == gc - 1, "C16.unpin.counts_one_guard_less");
+    assert!(inv_l(l), "C16.unpin.invariant");
+    assert!((raw_epoch(&l.epoch) & 1 == 0) == (gc == 1), "C13.unpin.clears_pinned_bit_only_for_outermost_guard");
+    if gc > 1 { assert!(L_UNPIN_WRITES == 0 && COLLECTS == 0 && (raw_epoch(&l.epoch) >> 1) == (ep >> 1), "C16.unpin.inner_guard_changes_nothing_else"); }
+    assert!(COLLECTS == (gc == 1 && !collecting && must) as u32, "C15.unpin.runs_scheduled_collection_from_outermost_unpin");
+    if COLLECTS > 0 { assert!(COLLECT_PINNED && COLLECT_GUARD_LOCAL == l as *const Local as usize && !l.must_collect.get(), "C13.unpin.collects_while_still_pinned"); }
+    assert!(l.collecting.get() == collecting, "C16.unpin.collecting_flag_restored");
+    assert!(FINALIZES == (gc == 1 && hc == 0) as u32, "C15.unpin.finalizes_only_handleless_participant");
+    assert!(other.guard_count.get() == o_gc && raw_epoch(&other.epoch) == o_ep, "C16.unpin.other_participant_untouched");
+    assert!(G_STORES == 0, "C14.unpin.never_moves_the_clock");
+    kani::cover!(gc == 1 && COLLECTS == 1, "cover.unpin.collects");
+    kani::cover!(gc == 2, "cover.unpin.nested");
+}}
+
+l3_harness! {
+/// repin (Guard::reactivate): the guard count is unchanged and the participant is pinned again
+/// afterwards, at an epoch validated after re-publication; it is unpinned in between exactly when
+/// this was the sole guard; the participant is not finalized under the caller.
+#[kani::stub(Global::collect, k_collect)]
+#[kani::stub(Local::finalize, k_finalize)]
+#[kani::unwind(6)]
+fn c16_repin() {
+    let c: &'static Collector = leak(Collector::new());
+    let l_store = ManuallyDrop::new(mk_local(c, 2));
+    let l: &Local = &l_store;
+    let other_store = ManuallyDrop::new(mk_local(c, 2));
+    let other: &Local = &other_store;
+    any_local_state(l, c);
+    any_local_state(other, c);
+    let (o_gc, o_ep) = (other.guard_count.get(), raw_epoch(&other.epoch));
+    kani::assume(l.guard_count.get() >= 1 && inv_l(l));
+    let (gc, hc, ep) = (l.guard_count.get(), l.handle_count.get(), raw_epoch(&l.epoch));
+    GWORD = epoch_word(&c.global.epoch); LWORD = epoch_word(&l.epoch);
+    G_MODE = 1; G_BUDGET = budget();
+    let via_guard: bool = kani::any();
+    if via_guard { let mut g = Guard { local: l }; g.reactivate(); core::mem::forget(g); } else { l.repin(); }
+    assert!(l.guard_count.get() == gc && l.handle_count.get() == hc, "C16.reactivate.counts_unchanged");
+    assert!(inv_l(l) && raw_epoch(&l.epoch) & 1 == 1, "C16.reactivate.pinned_again_afterwards");
+    assert!((L_UNPIN_WRITES >= 1) == (gc == 1), "C16.reactivate.unpins_only_when_sole_guard");
+    if gc == 1 {
+        assert!(G_LAST_LOAD_SEQ > L_LAST_WRITE_SEQ && (G_LAST_LOAD_VAL >> 1) == (raw_epoch(&l.epoch) >> 1), "C14.reactivate.repinned_at_validated_current_epoch");
+    } else {
+        assert!(raw_epoch(&l.epoch) == ep, "C16.reactivate.nested_keeps_announced_epoch");
+    }
+    assert!(FINALIZES == 0, "C16.reactivate.participant_survives");
+    assert!(other.guard_count.get() == o_gc && raw_epoch(&other.epoch) == o_ep, "C16.reactivate.other_participant_untouched");
+    kani::cover!(gc == 1 && via_guard, "cover.reactivate.sole_guard");
+    kani::cover!(gc == 2 && !via_guard, "cover.reactivate.nested");
+}}
+
+static mut F_RUNS: u32 = 0;
+static mut F_PINNED: bool = false;
+static mut F_GC: usize = 0;
+l3_harness! {
+/// reactivate_after(f): f runs exactly once, unpinned exactly when this was the sole guard; the
+/// participant is pinned again afterwards with the same guard count; f's result is returned.
+#[kani::stub(Global::collect, k_collect)]
+#[kani::stub(Local::finalize, k_finalize)]
+#[kani::unwind(6)]
+fn c16_reactivate_after() {
+    let c: &'static Collector = leak(Collector::new());
+    let l_store = ManuallyDrop::new(mk_local(c, 2));
+    let l: &Local = &l_store;
+    any_local_state(l, c);
+    kani::assume(l.guard_count.get() >= 1 && inv_l(l));
+    let (gc, hc, ep) = (l.guard_count.get(), l.handle_count.get(), raw_epoch(&l.epoch));
+    GWORD = epoch_word(&c.global.epoch); LWORD = epoch_word(&l.epoch);
+    G_MODE = 1; G_BUDGET = budget();
+    let mut g = Guard { local: l };
+    let lp = l as *const Local;
+    let token: u32 = kani::any();
+    let r = g.reactivate_after(|| { F_RUNS += 1; F_PINNED = raw_epoch(&(*lp).epoch) & 1 == 1; F_GC = (*lp).guard_count.get(); token });
+    assert!(r == token && F_RUNS == 1, "C16.reactivate_after.runs_f_exactly_once_and_returns_its_result");
+    assert!(F_PINNED == (gc > 1) && F_GC == gc - 1, "C16.reactivate_after.f_runs_unpinned_only_when_sole_guard");
+    assert!(l.guard_count.get() == gc && l.handle_count.get() == hc, "C16.reactivate_after.counts_unchanged");
+    assert!(inv_l(l) && raw_epoch(&l.epoch) & 1 == 1, "C16.reactivate_after.pinned_again_afterwards");
+    if gc == 1 { assert!(G_LAST_LOAD_SEQ > L_LAST_WRITE_SEQ && (G_LAST_LOAD_VAL >> 1) == (raw_epoch(&l.epoch) >> 1), "C14.reactivate_after.repinned_at_validated_current_epoch"); }
+    else { assert!(raw_epoch(&l.epoch) == ep, "C16.reactivate_after.nested_keeps_announced_epoch"); }
+    assert!(FINALIZES == 0, "C16.reactivate_after.participant_survives");
+    kani::cover!(gc == 1, "cover.reactivate_after.sole_guard");
+    kani::cover!(gc == 3, "cover.reactivate_after.nested");
+    core::mem::forget(g);
+}}
+
+l3_harness! {
+/// repin_without_collect (used during collection and long disposals): a pinned participant's
+/// announced epoch becomes the global epoch just read, pinned bit kept; never the clock.
+fn c14_repin_without_collect() {
+    let c: &'static Collector = leak(Collector::new());
+    let l_store = ManuallyDrop::new(mk_local(c, 2));
+    let l: &Local = &l_store;
+    any_local_state(l, c);
+    kani::assume(l.guard_count.get() >= 1 && inv_l(l));
+    let gc = l.guard_count.get();
+    GWORD = epoch_word(&c.global.epoch); LWORD = epoch_word(&l.epoch);
+    G_MODE = 2; PIN_VAL = raw_epoch(&l.epoch) & !1; G_BUDGET = budget();
+    let r = l.repin_without_collect();
+    assert!(G_LOADS == 1 && crate::ebr_impl::epoch::verif_epoch::data_of(r) == (G_LAST_LOAD_VAL | 1), "C14.repin_wc.returns_pinned_global_epoch_just_read");
+    assert!(raw_epoch(&l.epoch) == (G_LAST_LOAD_VAL | 1), "C14.repin_wc.announces_global_epoch_just_read_pinned");
+    assert!(l.guard_count.get() == gc && inv_l(l) && G_STORES == 0, "C14.repin_wc.keeps_pinned_never_moves_clock");
+    kani::cover!(L_WRITES == 1, "cover.repin_wc.moved");
+    kani::cover!(L_WRITES == 0, "cover.repin_wc.same");
+}}
+
+l3_harness! {
+/// acquire_handle / release_handle: handle count +-1; finalize exactly when the last handle goes
+/// while no guard is alive.
+#[kani::stub(Local::finalize, k_finalize)]
+fn c15_handles() {
+    let c: &'static Collector = leak(Collector::new());
+    let l_store = ManuallyDrop::new(mk_local(c, 2));
+    let l: &Local = &l_store;
+    any_local_state(l, c);
+    kani::assume(inv_l(l));
+    let (gc, hc) = (l.guard_count.get(), l.handle_count.get());
+    l.acquire_handle();
+    assert!(l.handle_count.get() == hc + 1 && FINALIZES == 0, "C15.acquire_handle.plus_one");
+    l.release_handle();
+    assert!(l.handle_count.get() == hc && FINALIZES == 0, "C15.release_handle.minus_one_no_finalize_while_handles_remain");
+    l.handle_count.set(1);
+    l.release_handle();
+    assert!(l.handle_count.get() == 0 && FINALIZES == (gc == 0) as u32, "C15.release_handle.finalizes_iff_last_handle_and_unpinned");
+    assert!(l.guard_count.get() == gc, "C15.handles.guards_untouched");
+}}
+
+// ================================================================================================
+// C13 / C14 — try_advance on a real registry (List) with two hand-built participants
+// ================================================================================================
+/// Two hand-built participants linked into the collector's registry (head -> a -> b).
+unsafe fn registry2(c: &Collector, a: &Local, b: &Local) {
+    // objects are aligned for their type (Rust guarantee; CBMC does not track it by itself)
+    kani::assume((&a.entry as *const Entry as usize) & 7 == 0 && (&b.entry as *const Entry as usize) & 7 == 0);
+    crate::ebr_impl::sync::list::verif_list::link_raw(&c.global.locals, &[&a.entry, &b.entry], &[false, false]);
+}
+
+l3_harness! {
+/// Sequential contract: the clock advances by exactly one step iff no registered participant is
+/// pinned in another epoch than the one read; otherwise it is left alone.
+#[kani::unwind(4)]
+fn c13_try_advance() {
+    let c: &'static Collector = leak(Collector::new());
+    let a_store = ManuallyDrop::new(mk_local(c, 2));
+    let b_store = ManuallyDrop::new(mk_local(c, 2));
+    let (a, b): (&Local, &Local) = (&a_store, &b_store);
+    registry2(c, a, b);
+    let g: usize = kani::any(); kani::assume(g & 1 == 0);
+    set_raw_epoch(&c.global.epoch, g);
+    let (ea, eb): (usize, usize) = (kani::any(), kani::any());
+    set_raw_epoch(&a.epoch, ea); set_raw_epoch(&b.epoch, eb);
+    GWORD = epoch_word(&c.global.epoch);
+    let guard = unprotected();
+    let r = c.global.try_advance(&guard);
+    core::mem::forget(guard);
+    let lag = |e: usize| e & 1 == 1 && (e & !1) != g;
+    if lag(ea) || lag(eb) {
+        assert!(G_STORES == 0 && raw_epoch(&c.global.epoch) == g && crate::ebr_impl::epoch::verif_epoch::data_of(r) == g, "C13.advance.refuses_while_a_pinned_participant_lags");
+    } else {
+        assert!(G_STORES == 1 && raw_epoch(&c.global.epoch) == g.wrapping_add(2) && crate::ebr_impl::epoch::verif_epoch::data_of(r) == g.wrapping_add(2), "C14.advance.single_step");
+    }
+    assert!(raw_epoch(&a.epoch) == ea && raw_epoch(&b.epoch) == eb, "C13.advance.participants_untouched");
+    kani::cover!(lag(eb) && !lag(ea), "cover.advance.second_lags");
+    kani::cover!(ea & 1 == 1 && eb & 1 == 1 && G_STORES == 1, "cover.advance.all_pinned_current");
+    kani::cover!(ea & 1 == 0 && eb & 1 == 0 && G_STORES == 1, "cover.advance.nobody_pinned");
+}}
+
+l3_harness! {
+/// R/G obligation: the caller is a registered participant pinned at e; while it stays pinned the
+/// clock is e or e+1 (J) and other advancers move it only within J.  Then whatever the caller
+/// stores is the clock's current value or its successor - never a step back, never two steps.
+#[kani::unwind(4)]
+fn c14_try_advance_monotone() {
+    let c: &'static Collector = leak(Collector::new());
+    let me_store = ManuallyDrop::new(mk_local(c, 2));
+    let b_store = ManuallyDrop::new(mk_local(c, 2));
+    let (me, b): (&Local, &Local) = (&me_store, &b_store);
+    registry2(c, me, b);
+    let e: usize = kani::any(); kani::assume(e & 1 == 0);
+    set_raw_epoch(&me.epoch, e | 1);
+    let ahead: bool = kani::any();
+    let g0 = if ahead { e.wrapping_add(2) } else { e };
+    set_raw_epoch(&c.global.epoch, g0);
+    let eb: usize = kani::any();
+    kani::assume(eb & 1 == 0 || (eb & !1) == e || (eb & !1) == e.wrapping_add(2));  // others obey J as well
+    set_raw_epoch(&b.epoch, eb);
+    GWORD = epoch_word(&c.global.epoch);
+    G_MODE = 2; PIN_VAL = e; G_BUDGET = budget();
+    let guard = Guard { local: me };
+    let r = c.global.try_advance(&guard);
+    core::mem::forget(guard);
+    let now = raw_epoch(&c.global.epoch);
+    assert!(now == e || now == e.wrapping_add(2), "C14.advance.pinned_participant_sees_at_most_one_advance");
+    if G_STORES >= 1 {
+        assert!(G_STORES == 1 && (G_STORE_VAL == G_BEFORE_STORE || G_STORE_VAL == G_BEFORE_STORE.wrapping_add(2)), "C14.advance.monotone_single_step");
+        assert!(G_STORE_VAL == e.wrapping_add(2), "C14.advance.only_to_successor_of_callers_epoch");
+    }
+    kani::cover!(G_STORES == 1 && G_STORE_VAL == G_BEFORE_STORE, "cover.advance.overwrites_same_value");
+    kani::cover!(G_STORES == 0 && ahead, "cover.advance.lagging_caller_refused");
+}}
+
+// ================================================================================================
+// C15 / C13 — bags, defer, flush, push_bag, collect, finalize: conservation of deferred functions
+// ================================================================================================
+static mut EXEC: [u32; 6] = [0; 6];          // how often closure i ran
+static mut EXEC_ORDER: [u8; 8] = [0; 8];
+static mut EXEC_N: usize = 0;
+fn tagged_deferred(i: u8) -> Deferred {
+    Deferred::new(move || unsafe { EXEC[i as usize] += 1; if EXEC_N < 8 { EXEC_ORDER[EXEC_N] = i; } EXEC_N += 1; })
+}
+unsafe fn bag_with(cap: usize, n: usize, first_tag: u8) -> Bag {
+    let mut b = Bag(Vec::with_capacity(cap));
+    let mut i = 0;
+    while i < n { assert!(b.try_push(tagged_deferred(first_tag + i as u8)).is_ok()); i += 1; }
+    b
+}
+
+/// Bag::try_push / is_empty / Drop: Ok => stored last; Err => bag unchanged and the same function
+/// handed back; dropping a bag calls every stored function exactly once, in order.
+#[kani::proof]
+#[kani::unwind(6)]
+fn c15_bag() {
+    unsafe {
+        let n: usize = kani::any();
+        kani::assume(n <= 3);
+        let mut b = bag_with(3, n, 0);
+        assert!(b.is_empty() == (n == 0) && b.0.len() == n, "C15.bag.holds_what_was_pushed");
+        match b.try_push(tagged_deferred(4)) {
+            Ok(()) => { assert!(n < 3 && b.0.len() == n + 1, "C15.bag.try_push_ok_stores_one_more"); }
+            Err(d) => {
+                assert!(n == 3 && b.0.len() == 3, "C15.bag.try_push_err_only_when_full_bag_unchanged");
+                d.call();
+                assert!(EXEC[4] == 1, "C15.bag.try_push_err_returns_the_same_function");
+                EXEC[4] = 0; EXEC_N = 0;
+            }
+        }
+        assert!(EXEC[0] + EXEC[1] + EXEC[2] + EXEC[4] == 0, "C15.bag.nothing_runs_while_stored");
+        let len = b.0.len();
+        drop(b);
+        assert!(EXEC_N == len, "C15.bag.drop_runs_every_function");
+        let mut i = 0;
+        while i < n { assert!(EXEC[i] == 1 && EXEC_ORDER[i] == i as u8, "C15.bag.drop_runs_each_once_in_order"); i += 1; }
+        if n < 3 { assert!(EXEC[4] == 1 && EXEC_ORDER[n] == 4, "C15.bag.last_pushed_runs_last"); }
+        kani::cover!(n == 3, "cover.bag.full");
+        kani::cover!(n == 0, "cover.bag.empty");
+    }
+}
+
+// ---- contract stubs of the queue (C17's sequential contract) live in queue_h.rs ----------------------
+use crate::ebr_impl::sync::queue::verif_queue::{Q_HEAD, Q_ITEMS, Q_POP_ATTEMPTS, Q_PUSHES, Q_TAIL};
+unsafe fn pushed_bag(i: usize) -> &'static SealedBag { &*(Q_ITEMS[i] as *const SealedBag) }
+
+static mut PUSH_BAGS: u32 = 0;
+static mut PUSHED_LEN: [usize; 2] = [0; 2];
+/// contract of Global::push_bag as seen by defer/flush/finalize: the bag's content moves to the
+/// global queue intact and the bag is replaced by an empty one
+fn k_push_bag(_g: &Global, bag: &mut Bag, _guard: &Guard) {
+    unsafe {
+        let old = replace(bag, Bag(Vec::with_capacity(2)));
+        if (PUSH_BAGS as usize) < 2 { PUSHED_LEN[PUSH_BAGS as usize] = old.0.len(); }
+        PUSH_BAGS += 1;
+        Q_ITEMS[Q_TAIL] = Box::into_raw(Box::new(old)) as usize; Q_TAIL += 1;
+    }
+}
+
+l3_harness! {
+/// Global::push_bag: exactly one push of the sealed old content, stamped with the global epoch read
+/// after the bag was taken; the participant's bag is left empty; nothing runs.
+#[kani::stub(Queue::push, Queue::k_push)]
+#[kani::unwind(5)]
+fn c13_push_bag() {
+    let c: &'static Collector = leak(Collector::new());
+    let g: usize = kani::any(); kani::assume(g & 1 == 0);
+    set_raw_epoch(&c.global.epoch, g);
+    GWORD = epoch_word(&c.global.epoch); G_MODE = 1; G_BUDGET = budget();
+    let n: usize = kani::any(); kani::assume(n <= 2);
+    let mut bag = bag_with(2, n, 0);
+    let guard = unprotected();
+    c.global.push_bag(&mut bag, &guard);
+    core::mem::forget(guard);
+    assert!(Q_PUSHES == 1, "C15.push_bag.exactly_one_push");
+    let sb = pushed_bag(0);
+    assert!(sb._bag.0.len() == n, "C15.push_bag.content_moves_intact");
+    assert!(G_LOADS == 1 && crate::ebr_impl::epoch::verif_epoch::data_of(sb.epoch) == G_LAST_LOAD_VAL, "C13.push_bag.sealed_with_global_epoch_read_at_sealing");
+    assert!(bag.is_empty(), "C15.push_bag.leaves_an_empty_bag");
+    assert!(bag.0.capacity() >= 1, "C15.push_bag.new_bag_can_hold_functions");
+    assert!(EXEC_N == 0 && G_STORES == 0, "C13.push_bag.runs_nothing_and_never_moves_the_clock");
+    kani::cover!(n == 2, "cover.push_bag.two");
+    core::mem::forget(bag);
+}}
+
+l3_harness! {
+/// Global::collect: one advance attempt, then at most COLLECTS_TRIALS conditional pops; a bag's
+/// functions run only if that bag was expired (>= 3 steps old) w.r.t. the global epoch, in FIFO
+/// order, stopping at the first unexpired bag; each function runs at most once.
+#[kani::stub(Queue::try_pop_if, Queue::k_try_pop_if)]
+#[kani::stub(Global::try_advance, k_try_advance)]
+#[kani::unwind(5)]   // <= 2 bags in the queue: the third pop returns None and the trial loop breaks (unwinding assertion proves it)
+fn c13_collect() {
+    let c: &'static Collector = leak(Collector::new());
+    let l_store = ManuallyDrop::new(mk_local(c, 2));
+    let l: &Local = &l_store;
+    let g: usize = kani::any(); kani::assume(g & 1 == 0);
+    set_raw_epoch(&c.global.epoch, g);
+    l.guard_count.set(1); set_raw_epoch(&l.epoch, g | 1);
+    l.manual_count.set(kani::any()); l.pin_count.set(kani::any());
+    let nb: usize = kani::any(); kani::assume(nb <= 2);
+    let (s0, s1): (usize, usize) = (kani::any(), kani::any());
+    kani::assume(s0 & 1 == 0 && s1 & 1 == 0);
+    // the queue by its sequential contract (checked on the real queue in C17)
+    let ug = ManuallyDrop::new(unprotected());
+    if nb >= 1 { c.global.queue.k_push(bag_with(2, 1, 0).seal(crate::ebr_impl::epoch::verif_epoch::mk(s0)), &ug); }
+    if nb >= 2 { c.global.queue.k_push(bag_with(2, 1, 1).seal(crate::ebr_impl::epoch::verif_epoch::mk(s1)), &ug); }
+    Q_PUSHES = 0;
+    let guard = ManuallyDrop::new(Guard { local: l });
+    c.global.collect(&guard);
+    let dist = |s: usize| crate::ebr_impl::epoch::verif_epoch::ring_dist((g >> 1) as i128, (s >> 1) as i128);
+    let (x0, x1) = (nb >= 1 && dist(s0) >= 3, nb >= 2 && dist(s1) >= 3);
+    assert!(ADVANCES == 1, "C13.collect.one_advance_attempt");
+    assert!(l.manual_count.get() == 0 && l.pin_count.get() == 0, "C15.collect.resets_collection_counters");
+    assert!(EXEC[0] <= 1 && EXEC[1] <= 1, "C15.collect.each_function_at_most_once");
+    assert!(EXEC[0] == x0 as u32, "C13.collect.first_bag_runs_iff_expired");
+    assert!(EXEC[1] == (x0 && x1) as u32, "C13.collect.fifo_stops_at_first_unexpired_bag");
+    if EXEC[1] == 1 { assert!(EXEC_ORDER[0] == 0 && EXEC_ORDER[1] == 1, "C15.collect.runs_in_fifo_order"); }
+    assert!(Q_POP_ATTEMPTS <= 16, "C13.collect.bounded_trials");
+    assert!(Q_PUSHES == 0, "C15.collect.pushes_nothing");
+    kani::cover!(x0 && x1, "cover.collect.both_expired");
+    kani::cover!(nb == 2 && !x0 && x1, "cover.collect.first_recent_blocks_second");
+}}
+
+l3_harness! {
+/// Local::defer: the function ends up as the last element of the participant's bag; a full bag is
+/// handed to the global queue intact first (one push_bag) and a collection is scheduled; nothing runs.
+#[kani::stub(Global::push_bag, k_push_bag)]
+#[kani::stub(Global::try_advance, k_try_advance)]
+#[kani::unwind(6)]
+fn c15_defer() {
+    let c: &'static Collector = leak(Collector::new());
+    let l_store = ManuallyDrop::new(mk_local(c, 2));
+    let l: &Local = &l_store;
+    l.guard_count.set(1); set_raw_epoch(&l.epoch, 1);
+    let n: usize = kani::any(); kani::assume(n <= 2);
+    *l.bag.get() = bag_with(2, n, 0);
+    let ac: usize = kani::any(); l.advance_count.set(ac);
+    let guard = ManuallyDrop::new(Guard { local: l });
+    l.defer(tagged_deferred(4), &guard);
+    let bag = &*l.bag.get();
+    if n < 2 {
+        assert!(PUSH_BAGS == 0 && bag.0.len() == n + 1 && !l.must_collect.get(), "C15.defer.stored_in_local_bag");
+    } else {
+        assert!(PUSH_BAGS == 1 && PUSHED_LEN[0] == 2 && bag.0.len() == 1, "C15.defer.full_bag_goes_to_global_queue_intact");
+        assert!(l.must_collect.get(), "C15.defer.full_bag_schedules_collection");
+    }
+    assert!(EXEC_N == 0, "C13.defer.runs_nothing");
+    assert!(l.advance_count.get() == ac.wrapping_add(1) && ADVANCES == (ac.wrapping_add(1) % 64 == 0) as u32, "C15.defer.periodic_advance_attempt");
+    // conservation: run what is in the local bag now: the new function is the last one
+    let k = bag.0.len();
+    core::ptr::drop_in_place(l.bag.get());
+    assert!(EXEC[4] == 1 && EXEC_ORDER[k - 1] == 4 && EXEC_N == k, "C15.defer.function_is_last_in_bag_exactly_once");
+    kani::cover!(n == 2, "cover.defer.full_bag");
+    kani::cover!(ADVANCES == 1, "cover.defer.advance");
+}}
+
+l3_harness! {
+/// flush / push_to_global / schedule_collection / incr_manual_collection.
+#[kani::stub(Global::push_bag, k_push_bag)]
+#[kani::unwind(6)]
+fn c15_flush() {
+    let c: &'static Collector = leak(Collector::new());
+    let l_store = ManuallyDrop::new(mk_local(c, 2));
+    let l: &Local = &l_store;
+    let g: usize = kani::any(); kani::assume(g & 1 == 0 && g >= 2);
+    set_raw_epoch(&c.global.epoch, g);
+    l.guard_count.set(1); set_raw_epoch(&l.epoch, g.wrapping_sub(2) | 1);
+    let n: usize = kani::any(); kani::assume(n <= 2);
+    *l.bag.get() = bag_with(2, n, 0);
+    let collecting: bool = kani::any(); l.collecting.set(collecting);
+    let guard = ManuallyDrop::new(Guard { local: l });
+    let via: u8 = kani::any();
+    let mc: usize = kani::any(); l.manual_count.set(mc);
+    if via == 0 { l.flush(&guard); } else if via == 1 { guard.flush(); } else { guard.incr_manual_collection(); }
+    let flushed = via <= 1 || mc.wrapping_add(1) % 64 == 0;
+    if flushed {
+        assert!(PUSH_BAGS == (n > 0) as u32 && (n == 0 || PUSHED_LEN[0] == n) && (*l.bag.get()).is_empty(), "C15.flush.moves_local_bag_to_global_queue_iff_nonempty");
+        assert!(l.must_collect.get(), "C15.flush.schedules_collection");
+        assert!((raw_epoch(&l.epoch) == (g | 1)) == collecting || raw_epoch(&l.epoch) == (g.wrapping_sub(2) | 1), "C14.schedule_collection.repins_only_during_collection");
+        if !collecting { assert!(raw_epoch(&l.epoch) == (g.wrapping_sub(2) | 1), "C13.schedule_collection.keeps_announced_epoch_outside_collection"); }
+    } else {
+        assert!(PUSH_BAGS == 0 && !l.must_collect.get() && (*l.bag.get()).0.len() == n, "C15.manual_collection.counts_only");
+    }
+    if via == 2 { assert!(l.manual_count.get() == mc.wrapping_add(1), "C15.manual_collection.counter"); }
+    assert!(EXEC_N == 0, "C13.flush.runs_nothing");
+    kani::cover!(flushed && n == 2 && collecting, "cover.flush.during_collection");
+    kani::cover!(via == 2 && flushed, "cover.flush.by_manual_counter");
+}}
+
+static mut ARC_DROPPED_AFTER_DELETE: bool = false;
+l3_harness! {
+/// finalize (thread exit): the local bag is handed to the global queue, the registry entry is
+/// marked deleted, and exactly one reference to the collector is released - in that order.
+#[kani::stub(Global::push_bag, k_push_bag)]
+#[kani::stub(Global::collect, k_collect)]
+#[kani::unwind(6)]
+fn c15_finalize() {
+    let c: &'static Collector = leak(Collector::new());
+    let keep = c.clone();                                   // another handle keeps the Global alive
+    let l_store = ManuallyDrop::new(mk_local(c, 2));
+    let l: &Local = &l_store;
+    let g: usize = kani::any(); kani::assume(g & 1 == 0);
+    set_raw_epoch(&c.global.epoch, g);
+    l.handle_count.set(0);
+    let n: usize = kani::any(); kani::assume(n <= 2);
+    *l.bag.get() = bag_with(2, n, 0);
+    let refs_before = std::sync::Arc::strong_count(&c.global);
+    GWORD = epoch_word(&c.global.epoch); LWORD = epoch_word(&l.epoch);
+    l.finalize();
+    assert!(PUSH_BAGS == (n > 0) as u32 && (n == 0 || PUSHED_LEN[0] == n), "C15.finalize.hands_local_bag_to_global_queue");
+    assert!((*l.bag.get()).is_empty() && EXEC_N == 0, "C15.finalize.loses_and_runs_nothing");
+    assert!(crate::ebr_impl::sync::list::verif_list::next_word(&l.entry) & 1 == 1, "C18.finalize.marks_registry_entry_deleted");
+    assert!(std::sync::Arc::strong_count(&keep.global) == refs_before - 1, "C15.finalize.releases_exactly_one_collector_reference");
+    assert!(l.guard_count.get() == 0 && l.handle_count.get() == 0 && raw_epoch(&l.epoch) == 0, "C16.finalize.leaves_participant_unpinned");
+    kani::cover!(n == 2, "cover.finalize.with_garbage");
+    core::mem::forget(keep);
+}}
+
+// ================================================================================================
+// Guard: defer_unchecked hands the function over exactly once; Drop unpins exactly once
+// ================================================================================================
+static mut LOCAL_DEFERS: u32 = 0;
+static mut HELD: Option<Deferred> = None;
+unsafe fn k_local_defer(_l: &Local, d: Deferred, _g: &Guard) { LOCAL_DEFERS += 1; HELD = Some(d); }
+static mut UNPINS: u32 = 0;
+static mut UNPIN_WHO: usize = 0;
+fn k_unpin(l: &Local) { unsafe { UNPINS += 1; UNPIN_WHO = l as *const Local as usize; } }
+
+l3_harness! {
+/// Guard::defer_unchecked: an unprotected guard runs the function at once, exactly once; a real
+/// guard hands exactly one Deferred to its participant, and that Deferred runs the function once.
+#[kani::stub(Local::defer, k_local_defer)]
+fn c15_guard_defer() {
+    let c: &'static Collector = leak(Collector::new());
+    let l_store = ManuallyDrop::new(mk_local(c, 2));
+    let l: &Local = &l_store;
+    let real: bool = kani::any();
+    let g = ManuallyDrop::new(if real { Guard { local: l } } else { unprotected() });
+    let big: [u64; 5] = [kani::any(), 2, 3, 4, 5];
+    let want = big[0] ^ 9;
+    g.defer_unchecked(move || { EXEC[0] += 1; EXEC_N = (big[0] ^ 9) as usize; big[1] });
+    if real {
+        assert!(LOCAL_DEFERS == 1 && EXEC[0] == 0, "C15.guard_defer.hands_exactly_one_deferred_to_the_participant");
+        HELD.take().unwrap().call();
+    } else {
+        assert!(LOCAL_DEFERS == 0, "C15.guard_defer.unprotected_defers_nothing");
+    }
+    assert!(EXEC[0] == 1 && EXEC_N == want as usize, "C15.guard_defer.function_runs_exactly_once_with_its_captures");
+}}
+
+l3_harness! {
+/// Drop for Guard: unpins its participant exactly once; an unprotected guard does nothing.
+#[kani::stub(Local::unpin, k_unpin)]
+fn c16_guard_drop() {
+    let c: &'static Collector = leak(Collector::new());
+    let l_store = ManuallyDrop::new(mk_local(c, 2));
+    let l: &Local = &l_store;
+    let real: bool = kani::any();
+    let g = if real { Guard { local: l } } else { unprotected() };
+    drop(g);
+    assert!(UNPINS == real as u32 && (!real || UNPIN_WHO == l as *const Local as usize), "C16.guard_drop.unpins_its_participant_exactly_once");
+}}
